@@ -559,6 +559,19 @@ class _Gen:
             items.append(impl)
             exports.append((impl.name, cu, 'class'))
             visible.append((impl.name, cu))
+        if f.zope and r.random() < .3:
+            # interfaces made by *calling* an interface factory (a project subclass of InterfaceClass), each with its own implementer
+            zu = self.new_uid()
+            lines = ['from zope.interface import implementer as _implementer', 'from zope.interface.interface import InterfaceClass as _InterfaceClass',
+                     f'class IFactory{zu}(_InterfaceClass):', '    "interface factory"']
+            n_if = r.randint(2, 3)
+            for q in range(n_if):
+                factory = r.choice([f'IFactory{zu}', '_InterfaceClass'])
+                lines += [f'ICalled{zu}_{q} = {factory}("ICalled{zu}_{q}")', f'"Interface made by a call, number {q}."']
+            for q in range(n_if):
+                if r.random() < .8:
+                    lines += [f'@_implementer(ICalled{zu}_{q})', f'class CImpl{zu}_{q}:', f'    "implements only ICalled{zu}_{q}"']
+            items.append(Item(kind='raw', text='\n'.join(lines)))
         if f.assign_alias and visible and r.random() < .4:
             a = f'al{self.new_uid()}'
             dotted = [v for v in visible if '.' in v[0]]
